@@ -182,6 +182,13 @@ func (c *Context) ActorOf(actor vivid.Actor, options ...vivid.ActorOption) (vivi
 		c.children = make(map[vivid.ActorPath]vivid.ActorRef)
 	}
 	c.children[childCtx.Ref().GetPath()] = childCtx.Ref()
+	// 子级自登记（appendActorContext）起即可被外部通过路径找到并终止：若它在写入本表之前就已经终止并释放，
+	// 其终止通知可能已被处理（removeChild 未找到条目），此时保留该条目会使父级永远等不到子级清空
+	// （根 Actor 的 System.Stop 因此超时）。只有真正的释放才会删除登记，且删除登记先于发送终止通知
+	// （重启与僵尸保持登记）：写入后仍登记，则通知必在写入之后才被处理；已不再登记，则由此处自行移除条目。
+	if registered, ok := c.system.actorContexts.Load(childCtx.Ref().GetPath()); !ok || registered != any(childCtx) {
+		delete(c.children, childCtx.Ref().GetPath())
+	}
 	c.childrenLock.Unlock()
 
 	c.tell(true, childCtx.Ref(), new(vivid.OnLaunch))
